@@ -330,6 +330,64 @@ def t2(ck: Check, gm: GrowthModel) -> None:
                         ck.ob("T2", fm, n, False, f"`{text(n)}` deletes part of the diagram graph")
 
 
+def _ranges_over_stubs(fm: FuncModel, g, hk) -> bool:
+    """The parent is the element of `for x in D.stub_ids()` (possibly through a list taken beforehand), and no node is
+    marked expanded between the moment the stubs were listed and the element's own edge creation."""
+    cfg = fm.cfg
+    loop = None
+    for l in cfg.enclosing_loops(g.cfgn):
+        if isinstance(l, ast.For) and isinstance(l.target, ast.Name) and fm.vkey(ast.Name(l.target.id, ast.Load()), g.cfgn) == hk[1]:
+            loop = l
+            break
+    if loop is None:
+        return False
+    hdr = cfg.loop_header[loop]
+
+    def unwrap(e):
+        while isinstance(e, ast.Call) and isinstance(e.func, ast.Name) and e.func.id in ("list", "sorted", "tuple") and len(e.args) == 1:
+            e = e.args[0]
+        return e
+    e = unwrap(loop.iter)
+    taken = hdr
+    if isinstance(e, ast.Name):
+        defs = cfg.reaching_defs(e.id, hdr)
+        if len(defs) != 1 or defs[0].kind != "stmt" or not isinstance(defs[0].ast, ast.Assign):
+            return False
+        L = e.id
+        taken = defs[0]
+        e2 = defs[0].ast.value
+        if unwrap(e2) is e2:
+            return False        # not a snapshot
+        e = unwrap(e2)
+        # the list itself is not changed
+        for i in cfg.between(taken, hdr) | cfg.loop_nodes[loop]:
+            a = cfg.nodes[i].ast
+            if cfg.nodes[i].kind != "stmt" or a is None or isinstance(a, (ast.FunctionDef, ast.ClassDef)):
+                continue
+            for y in ast.walk(a):
+                if isinstance(y, ast.Call) and isinstance(y.func, ast.Attribute) and isinstance(y.func.value, ast.Name) \
+                        and y.func.value.id == L and y.func.attr not in ("copy", "index", "count"):
+                    return False
+    if not (isinstance(e, ast.Call) and callee_name(e) == "stub_ids" and isinstance(e.func, ast.Attribute)
+            and fm.vkey(e.func.value, taken) == hk[0]):
+        return False
+    # marks between the listing and the loop, and marks inside the loop on other nodes or ahead of the edge creation
+    for ev in fm.field_events():
+        if ev.kind != "store" or ev.field != "expanded" or ev.hk[0] != hk[0]:
+            continue
+        if taken is not hdr and ev.cfgn.id in cfg.between(taken, hdr) and ev.cfgn.id not in (taken.id,):
+            if ev.cfgn.id not in cfg.loop_nodes[loop]:
+                return False
+        if ev.cfgn.id in cfg.loop_nodes[loop]:
+            if ev.hk != hk:
+                return False
+            if g.cfgn.id in cfg.reach_avoiding(ev.cfgn, [hdr]):
+                return False
+    # growth through calls inside the loop marks nodes too (expansion of another node): only this function's own stores
+    # are visible here; calls that expand nodes are growth events of their own parent
+    return True
+
+
 # ------------------------------------------------------------------------------------------ T3
 def t3(ck: Check, gm: GrowthModel) -> None:
     for fm in ck.prog.models():
@@ -353,6 +411,10 @@ def t3(ck: Check, gm: GrowthModel) -> None:
                     tnode = fm.cfg.nodes[next(iter(fm.cfg.g.predecessors(b.id)))]
                     if not fm.stale(tnode, g.cfgn, b.test):
                         live.append(b)
+            if not live and _ranges_over_stubs(fm, g, hk):
+                ck.ob("T3", fm, g.stmt, True, f"`{text(g.parent_expr)}` ranges over the stub nodes of the diagram, none of which is "
+                                              f"marked expanded before its turn")
+                continue
             ck.ob("T3", fm, g.stmt, bool(live),
                   f"edge creation on `{text(g.parent_expr)}` dominated by its not-yet-expanded test" if live else
                   f"node `{text(g.parent_expr)}` can gain successors although it may already be expanded "
